@@ -3,6 +3,7 @@
 package main
 
 import (
+	"reflect"
 	"fmt"
 
 	"go.dedis.ch/kyber/v4"
@@ -45,6 +46,11 @@ func gen(tier string, seed int64) []hx.Scenario {
 		if k <= 4 {
 			for _, bind := range []string{"none", "X", "Y"} {
 				out = append(out, hx.Scenario{Name: "pair-forger-linear", Cfg: fmt.Sprintf("k=%d bind=%s", k, bind), Run: func(x *hx.Ctx) { forgerLinear(x, k, bind) }})
+			}
+		}
+		if k <= 4 {
+			for j := 0; j < k; j++ {
+				out = append(out, hx.Scenario{Name: "pair-forger-scaled-slot", Cfg: fmt.Sprintf("k=%d slot=%d", k, j), Run: func(x *hx.Ctx) { forgerScaledSlot(x, k, j) }})
 			}
 		}
 		for pi, p := range perms {
@@ -237,6 +243,52 @@ type fEga4 struct{ Zlambda kyber.Scalar }
 type fEga5 struct {
 	Zsigma []kyber.Scalar
 	Ztau   kyber.Scalar
+}
+
+// rewriteCtx lets the honest prover run and rewrites one of its messages on the way out (a cheating prover that follows
+// the protocol except for one response).
+type rewriteCtx struct {
+	proof.ProverContext
+	edit func(msg any)
+}
+
+func (r *rewriteCtx) Put(msg any) error {
+	r.edit(msg)
+	return r.ProverContext.Put(msg)
+}
+
+// forgerScaledSlot: the claimed output has slot j multiplied by a scalar c (not a re-encryption of any input) and the
+// response sigma_j of the honest transcript is divided by c, so that the aggregate equations (34), (35) still balance;
+// only the per-index equation sigma_i * Gamma == W_i + D_i exposes it. Must be rejected for every slot.
+func forgerScaledSlot(x *hx.Ctx, k, j int) {
+	pi := hx.Seq(k)
+	in := mkInst(x, k, pi)
+	s := in.s
+	c := s.Scalar().Pick(s.RandomStream())
+	ps := shuffle.PairShuffle{}
+	ps.Init(s, k)
+	prover := func(ctx proof.ProverContext) error {
+		rw := &rewriteCtx{ProverContext: ctx, edit: func(msg any) {
+			v := reflect.ValueOf(msg)
+			if v.Kind() != reflect.Ptr || v.Elem().Kind() != reflect.Struct {
+				return
+			}
+			f := v.Elem().FieldByName("Zsigma")
+			if !f.IsValid() || f.Len() != k {
+				return
+			}
+			sig := f.Index(j).Interface().(kyber.Scalar)
+			f.Index(j).Set(reflect.ValueOf(s.Scalar().Div(sig, c)))
+		}}
+		return ps.Prove(pi, in.G, in.H, in.beta, in.X, in.Y, s.RandomStream(), rw)
+	}
+	prf, err := proof.HashProve(s, "PairShuffle", prover)
+	if !x.NoErr("HashProve (cheating prover)", err) {
+		return
+	}
+	Xb, Yb := cp(in.Xbar), cp(in.Ybar)
+	Xb[j], Yb[j] = s.Point().Mul(c, Xb[j]), s.Point().Mul(c, Yb[j])
+	x.Err(fmt.Sprintf("output slot %d scaled by c with sigma_%d divided by c", j, j), proof.HashVerify(s, "PairShuffle", shuffle.Verifier(s, in.G, in.H, in.X, in.Y, Xb, Yb), prf))
 }
 
 // forgerLinear: the output is NOT a permutation of re-encryptions: Xbar_0 = X_0 + X_1 + b_0 G, Xbar_i = X_i + b_i G (i>0).
